@@ -169,11 +169,19 @@ func CheckKeyValue(path string, rwPath *admin.ReadWritePath, val *configapi.Type
 	if len(indexNames) == 0 {
 		return nil
 	}
-	for i, idxName := range indexNames {
+	for i := range indexNames {
 		if err := CheckPathIndexIsValid(indexValues[i]); err != nil {
 			return err
 		}
-		if !rwPath.IsAKey || rwPath.AttrName == idxName && indexValues[i] == val.ValueToString() {
+	}
+	if !rwPath.IsAKey {
+		return nil
+	}
+	// A key attribute belongs to the list entry that directly contains it: compare with that entry's indexes
+	parentPath := GetParentPath(path)
+	parentNames, parentValues := ExtractIndexNames(parentPath[strings.LastIndex(parentPath, "/")+1:])
+	for i, idxName := range parentNames {
+		if rwPath.AttrName == idxName && parentValues[i] == val.ValueToString() {
 			return nil
 		}
 	}
